@@ -185,6 +185,17 @@ func (i *interpreter) trimSpace(s value) (value, value, value) {
 		if c, ok := mid.(string); ok && stringInClass(c, "trimmed") {
 			return concatOf(segs[:lo]), c, concatOf(segs[hi:])
 		}
+		// every remaining segment (possibly empty) is free of bytes that can
+		// start or end a white-space rune: nothing can be trimmed
+		free := true
+		for _, sg := range segs[lo:hi] {
+			if !p.noEdgeByte(sg, true) || !p.noEdgeByte(sg, false) {
+				free = false
+			}
+		}
+		if free {
+			return concatOf(segs[:lo]), mid, concatOf(segs[hi:])
+		}
 	}
 	i.ex.noteApprox("TrimSpace: general (regex) encoding used")
 	if m, ok := p.memo["trim|"+tStr(s)]; ok {
